@@ -19,6 +19,9 @@ use std::sync::{Arc, Mutex};
 #[derive(Clone, Copy, Debug, PartialEq, Eq)]
 pub enum Profile {
     C04,
+    /// unknown object members at the HTTP surface: request bodies (servers refuse) and responses
+    /// (clients ignore) - what C05 says about the deserializers, seen through the endpoints
+    C05,
     C06,
     C07,
     C09,
@@ -64,6 +67,8 @@ const REQ_BODY_DAMAGE: &[FK] = &[
     FK::WrongDocument,
     FK::UnionMismatch,
     FK::NumberOutOfRange,
+    FK::MissingField,
+    FK::LeafCorrupt,
     FK::ByteFlip,
 ];
 const PARAM_FAULTS: &[FK] = &[
@@ -89,6 +94,8 @@ const RESP_DAMAGE: &[FK] = &[
     FK::UnionMismatch,
     FK::UnionReorder,
     FK::NumberOutOfRange,
+    FK::MissingField,
+    FK::LeafCorrupt,
     FK::ByteFlip,
     FK::Pretty,
     FK::TrailingWs,
@@ -111,6 +118,7 @@ fn pick_ep(ctx: &Ctx, profile: Profile) -> usize {
         .iter()
         .filter(|e| match profile {
             Profile::C04 | Profile::C18 => true,
+            Profile::C05 => e.body_arg().is_some() || e.returns.is_some(),
             Profile::C06 => e.body_arg().is_some(),
             Profile::C07 => e.args.iter().any(|a| matches!(a.kind, PKind::Path | PKind::Query)),
             Profile::C09 => !e.args.is_empty() || !matches!(e.auth, Auth::None),
@@ -238,6 +246,9 @@ impl WireEngine {
         p.retry = ctx.chance(1, 6);
         if self.profile == Profile::C18 {
             p.enabled_resp = run_enabled.to_vec();
+        } else if self.profile == Profile::C05 {
+            p.enabled = run_enabled.to_vec();
+            p.enabled_resp = run_enabled.to_vec();
         } else {
             p.enabled = run_enabled.to_vec();
         }
@@ -265,9 +276,22 @@ pub fn result_of(r: Result<Result<Box<dyn DynVal>, conjure_error::Error>, String
 }
 
 impl Engine for WireEngine {
+    fn property(&self) -> &'static str {
+        match self.profile {
+            Profile::C04 => "C04",
+            Profile::C05 => "C05",
+            Profile::C06 => "C06",
+            Profile::C07 => "C07",
+            Profile::C09 => "C09",
+            Profile::C18 => "C18",
+            Profile::C19 => "C19",
+        }
+    }
+
     fn name(&self) -> &'static str {
         match (self.profile, self.enumerate) {
             (Profile::C04, _) => "wire-c04",
+            (Profile::C05, _) => "wire-c05",
             (Profile::C06, false) => "wire-c06",
             (Profile::C06, true) => "wire-c06-enum",
             (Profile::C07, _) => "wire-c07",
@@ -378,6 +402,7 @@ impl Engine for WireEngine {
             (Profile::C18, false) => v.extend(["probe.c18_evaluated", "fault.union_mismatch_fired", "fault.wrong_document_fired"]),
             (Profile::C18, true) => v.extend(["probe.c18_evaluated"]),
             (Profile::C19, _) => {}
+            (Profile::C05, _) => v.extend(["fault.unknown_field_fired", "probe.unknown_field_spliced", "probe.c05_http_unknown_member_runs"]),
         }
         v
     }
@@ -427,6 +452,11 @@ impl WireEngine {
             }
             Profile::C19 => swarm(ctx, PARAM_FAULTS),
             Profile::C18 => swarm(ctx, RESP_DAMAGE),
+            Profile::C05 => {
+                let mut v = vec![FK::UnknownField];
+                v.extend(swarm(ctx, &[FK::Pretty, FK::SmileReencode, FK::TrailingWs, FK::LeadingWs, FK::UnionReorder]));
+                v
+            }
         };
         // several calls on one service instance: interleaved by the scheduler (async) or one
         // after the other (blocking) — state must not carry over between calls
@@ -448,7 +478,7 @@ impl WireEngine {
             let mut ep = pick_ep(ctx, self.profile);
             // client kind: generated, macro-derived, or the foreign Smile peer
             let mut client_kind = crate::mirror::ClientKind::Generated;
-            if matches!(self.profile, Profile::C04 | Profile::C07 | Profile::C18 | Profile::C19 | Profile::C09) && ctx.chance(1, 4) {
+            if matches!(self.profile, Profile::C04 | Profile::C05 | Profile::C07 | Profile::C18 | Profile::C19 | Profile::C09) && ctx.chance(1, 4) {
                 // steer towards the mirrored endpoints
                 let covered: Vec<usize> = ir().eps.iter().map(|e| e.idx).filter(|i| crate::mirror::macro_client_covers(*i) || crate::mirror::smile_client_covers(*i)).collect();
                 let applicable: Vec<usize> = covered
@@ -728,6 +758,24 @@ impl WireEngine {
             }
         }
         crate::oracles::evaluate(ctx, &st.knobs, &calls, &exchanges, &st.sh.handler, st.is_async || threaded);
+        if self.profile == Profile::C05 {
+            // the only damage this profile does is an undeclared member: what the request-body,
+            // response and exchange oracles find about it is a C05 violation at the HTTP surface
+            let spliced = exchanges.iter().any(|e| e.req_fired.iter().chain(&e.resp_fired).any(|f| f.kind == FK::UnknownField));
+            if spliced {
+                ctx.count("probe.c05_http_unknown_member_runs");
+                let mut g = ctx.lock();
+                for v in g.violations.iter_mut() {
+                    let about_members = ["accepted:unknown_field", "valid_response_rejected", "client_error_after_handler", "client_result_differs", "value_differs", "handler_value_differs"]
+                        .iter()
+                        .any(|k| v.kind.starts_with(k));
+                    if about_members && matches!(v.property, "C04" | "C06" | "C18") {
+                        v.kind = format!("http:{}:{}", v.property, v.kind);
+                        v.property = "C05";
+                    }
+                }
+            }
+        }
         crate::oracles::safe_channels(&exchanges)
     }
 }
